@@ -1,6 +1,7 @@
 package main
 
 import (
+	"math"
 	"fmt"
 	"strings"
 
@@ -105,7 +106,14 @@ func execC11(seg []Ev) []Ev {
 			s.Unread()
 		case "unreadmany":
 			n := toInt(in["n"])
+			if raw, ok := in["nraw"]; ok { // a replayed event carries the real count here
+				fmt.Sscan(toStr(raw), &n)
+			}
 			e["n"] = n
+			if n < -(1 << 30) {
+				e["n"] = -(1 << 30) // what the specification sees (TLC's integers are 32 bits wide; any count <= 0 means "nothing")
+				e["nraw"] = fmt.Sprint(n)
+			}
 			s.UnreadMany(n)
 		case "reset":
 			s.Reset()
@@ -302,6 +310,30 @@ func genC11(g *Gen) {
 				seg = append(seg, Ev{"op": "unreadmany", "n": n}, Ev{"op": "read"}, Ev{"op": "read"}, Ev{"op": "unreadmany", "n": 2}, Ev{"op": "read"})
 				g.Run("multi-unread by large counts", seg)
 			}
+		}
+	}
+	// the other ASCII control characters between LF and CR, and next to them; multi-unread by extreme counts
+	for _, c := range []string{"a\vb\fc", "\v\n\f\r\v", "\x0b", "\x0c\x0c", "a\x09b\x08\x0e\x1c\x1d\x1e\x1f\u0085\u2028z", "\n\v\r\f\n"} {
+		for qo := 0; qo < 6; qo++ {
+			seg := []Ev{{"op": "new", "content": cps(c), "qo": qo}}
+			for j := 0; j <= len([]rune(c)); j++ {
+				seg = append(seg, Ev{"op": "read", "qo": qo})
+			}
+			for j := 0; j <= len([]rune(c)); j++ {
+				seg = append(seg, Ev{"op": "unread", "qo": qo})
+			}
+			g.Run("control characters between LF and CR", seg)
+		}
+	}
+	// (large positive counts are not driven: the scanner steps back one character at a time)
+	for _, n := range []int{math.MinInt64, math.MinInt64 + 1, math.MinInt64 + 5, math.MinInt32, -1 << 40, -1, 100000} {
+		for k := 0; k <= 4; k++ {
+			seg := []Ev{{"op": "new", "content": cps("ab\ncd")}}
+			for j := 0; j < k; j++ {
+				seg = append(seg, Ev{"op": "read"})
+			}
+			seg = append(seg, Ev{"op": "unreadmany", "n": n}, Ev{"op": "read"}, Ev{"op": "unreadmany", "n": n}, Ev{"op": "read"}, Ev{"op": "read"})
+			g.Run("multi-unread by extreme counts", seg)
 		}
 	}
 	// two scanners alive at the same time, used alternately
